@@ -108,6 +108,18 @@ register('C10',
          'DESIGN.md 5/C10')
 
 
+register('C09',
+         'EcGroup.tla defines ECDSA signing, the hidden-number pair and RFC 6979 bits2int on small curves; TLC proves '
+         'k = a + b d (mod q) for every d, every k and boundary z on the whole group. The real EcCurve on the same curves is '
+         'replayed over (d, k, z) grids (all pairs in the thorough tier), every hash bit string of length 0..8 (0..11 thorough) '
+         'against the 7-bit orders (shorter, equal, longer, unaligned), and protobuf signatures with leading zero bytes; TLC '
+         'recomputes r, s (certifying the reference signer), the truncated hash and the relation (EcTrace.tla). Named curves: '
+         'hash lengths 0..66 bytes on every curve, and Int2Bytes/Bytes2Int/Hex2Bytes on 0..65535 and up to 4096 bits (T2).',
+         'Trusted: TLC; for named curves the reference signer (certified by TLC on the small curves), bits2int_ref and int.from_bytes.',
+         'TLA+ spec (EcGroup.tla: Sign/Bits2Int/HnpRelation) model-checked with TLC + exhaustive small-curve replay + TLC trace validation',
+         'DESIGN.md 5/C09')
+
+
 def main():
   props = [json.loads(l)['id'] for l in open(os.path.join(HOME, 'properties.jsonl'))]
   checks = []
